@@ -37,8 +37,11 @@
 (* must still be a well-formed node).  For such documents rejection as     *)
 (* json-error would also be in accordance with the documentation: the      *)
 (* checks admit both, but if the document is solved it must be solved with *)
-(* this meaning.  JSON arrays in the place of the inner objects (serde's   *)
-(* positional struct form) are outside the universe.                       *)
+(* this meaning.  A JSON array in the place of one of the inner objects    *)
+(* (chance, player, outcome) is serde's positional form of the same        *)
+(* members, in the order of the grammar above: [infoset-or-null, outcomes],*)
+(* [player_one, infoset, actions], [prob, state]; the array must have      *)
+(* exactly that many elements (`JPos`).  Also open: not in the grammar.    *)
 (***************************************************************************)
 EXTENDS Integers, Sequences, FiniteSets, TLC
 
@@ -61,6 +64,10 @@ JSorted(v) == SortSeq(SelectSeq([j \in 1..Len(v.f) |-> [j |-> j, k |-> v.f[j].k]
                       LAMBDA x, y : JRank(x.k) < JRank(y.k))
 
 JErr == [ok |-> FALSE]
+\* the positional form of an inner object: the members of `keys` in this order, nothing missing, nothing more
+JPos(x, keys) == IF x.t # "arr" THEN x
+                 ELSE IF Len(x.e) # Len(keys) THEN [t |-> "bad"]
+                 ELSE [t |-> "obj", f |-> [j \in 1..Len(keys) |-> [k |-> keys[j], v |-> x.e[j]]]]
 JOk(t) == [ok |-> TRUE, t |-> t]
 
 \* ------------------------------------------------------------------ meaning
@@ -70,7 +77,9 @@ JState(v, scale, wscale) ==
   IF v.t # "obj" THEN JErr
   ELSE IF Len(v.f) # 1 THEN JErr
   ELSE LET key == v.f[1].k
-           x == v.f[1].v
+           x == IF v.f[1].k = "chance" THEN JPos(v.f[1].v, <<"infoset", "outcomes">>)
+                ELSE IF v.f[1].k = "player" THEN JPos(v.f[1].v, <<"player_one", "infoset", "actions">>)
+                ELSE v.f[1].v
        IN IF key = "terminal" THEN
             (IF x.t = "num" THEN JOk([k |-> "T", pay |-> (x.n * scale) \div x.d]) ELSE JErr)
           ELSE IF key = "chance" THEN
@@ -97,17 +106,19 @@ JActs(v, scale, wscale) ==
           ELSE LET order == JSorted(v)
                IN JOk([m \in 1..Len(order) |-> [a |-> order[m].k, t |-> sub[order[m].j].t]])
 
-JOutcomeOK(o) == /\ o.t = "obj"
-                 /\ JOnce(o, {"prob", "state"}) /\ JHas(o, {"prob", "state"})
-                 /\ JGet(o, "prob").t = "num"
+JOutcome(e) == JPos(e, <<"prob", "state">>)
+JOutcomeOK(e) == LET o == JOutcome(e)
+                 IN /\ o.t = "obj"
+                    /\ JOnce(o, {"prob", "state"}) /\ JHas(o, {"prob", "state"})
+                    /\ JGet(o, "prob").t = "num"
 JOuts(v, scale, wscale) ==
   IF v.t # "obj" THEN JErr
   ELSE IF \E j \in 1..Len(v.f) : ~JOutcomeOK(v.f[j].v) THEN JErr
-  ELSE LET sub == [j \in 1..Len(v.f) |-> JState(JGet(v.f[j].v, "state"), scale, wscale)]
+  ELSE LET sub == [j \in 1..Len(v.f) |-> JState(JGet(JOutcome(v.f[j].v), "state"), scale, wscale)]
        IN IF \E j \in 1..Len(v.f) : ~sub[j].ok THEN JErr
           ELSE LET order == JSorted(v)
                IN JOk([m \in 1..Len(order) |->
-                         LET p == JGet(v.f[order[m].j].v, "prob")
+                         LET p == JGet(JOutcome(v.f[order[m].j].v), "prob")
                          IN [w |-> (p.n * wscale) \div p.d, t |-> sub[order[m].j].t]])
 
 \* ------------------------------------------------------------------ the documented grammar, exactly
